@@ -9,7 +9,7 @@ import Cellml.Tie.PrinterAdd
 
 set_option linter.unusedSimpArgs false
 
-namespace Cellml.Tie
+namespace Cellml.Tie.PPrinter
 open C11 Cellml.Gen
 
 /-- a `nil`-terminated argument list -/
@@ -115,4 +115,4 @@ theorem printAdd_pr (print : E → Except PyErr String) (hd tl : E) (hl : proper
     rw [(h2 j hj).1]
     exact hm j.e (by rw [← h1]; exact List.mem_map_of_mem hj)
 
-end Cellml.Tie
+end Cellml.Tie.PPrinter
